@@ -261,4 +261,6 @@ func main() {
 	if err := os.WriteFile(filepath.Join(dir, "export_verif_c12.go"), []byte(b.String()), 0o644); err != nil {
 		die("%v", err)
 	}
+	// property C07: crash-point injection into the segment writer (crash.go)
+	genCrash(repo, out)
 }
